@@ -23,6 +23,8 @@ func famPressure(w *World) {
 	relayed := scnChance(1, 3)
 	small := func() tchannel.ConnectionOptions {
 		co := w.connOptsBig()
+		co.SendCancelOnContextCanceled = scnChance(1, 2)
+		co.PropagateCancel = scnChance(1, 2)
 		if !scnChance(1, 5) {
 			co.SendBufferSize = 1 + scn(4)
 			w.Net.Fired["buf.small"]++
@@ -105,7 +107,7 @@ func famPressure(w *World) {
 			if scnChance(1, 4) {
 				s.Delay = time.Duration(scn(30)) * w.Grid
 			}
-			if scnChance(1, 8) {
+			if scnChance(1, 4) {
 				s.CancelAfter = time.Duration(scn(100)) * w.Grid
 			}
 			if s.Timeout > maxTimeout {
